@@ -87,11 +87,18 @@ def make_event(case):
                 exact = exact and e1 and e2
                 xs.append(a); ys.append(b)
             return xs, ys
-        m = TreeLayout().layout(root, ux, uy)
+        # one layout object is used for everything (as a drawing widget would); each measurement is read only AFTER the same
+        # object has laid out another, differently sized tree: what was reported for a tree stays what it was
+        L = TreeLayout()
+        decoy = shapes.build((((None, None), None), (None, None)), "btn")
+        kw = common.pick(str(case.get("shape")), 2)
+        m = L.layout(root, unit_x_multiplier=ux, unit_y_multiplier=uy) if kw else L.layout(root, ux, uy)
         ev["X"], ev["Y"] = coords(objs.keep)
+        L.layout(decoy, 3.0, 2.0)
         ev["m"], e = measure_rec(m); exact = exact and e
-        m2 = TreeLayout().layout(root, ux, uy)
+        m2 = L.layout(root, ux, uy)
         ev["X2"], ev["Y2"] = coords(objs.keep)
+        L.layout(decoy)
         ev["m2"], e = measure_rec(m2); exact = exact and e
         # mirrored tree, built fresh; node k (pre-order of the original) <-> its mirror image
         mroot = shapes.build(shapes.mirror(s), case["cls"])
